@@ -7,6 +7,12 @@ VERIF = os.path.dirname(os.path.dirname(os.path.abspath(__file__)))
 ALL = [f"C{i:02d}" for i in range(1, 21)]
 
 CLAIMS = {
+    "C15": dict(
+        text="Machine-checked Coq proof: for every interpreter with dis.stack_effect installed (3.6-3.13), every opcode and EVERY operand (unbounded Z), wherever CPython's effect is defined xstack_effect returns the same number. xstack_effect is translated from its AST on every run into a decision chain that yields a formula (constant, linear, bit-select, lo+hi byte, popcount-of-4-flags, table) per (version, opname, pop, push, category); the reference is a formula per opcode fitted to and checked against dis.stack_effect (all operands < 2^16 in the thorough tier). Agreement of formulas is a vm_compute obligation; formula equality implies equality at all operands by a proved soundness lemma (incl. the single-bit mask normalisation). Translated model tied to the running function by in-Coq correspondence on all 39 tables.",
+        note="Trusted: Coq kernel; fail-closed AST translator tools/translate/stackeffect.py (pattern -> formula constructor); opcode translator; reference formulas are empirical (fitted to the installed interpreters, C source not available), jump=None only. 2.5-3.5 have no reference here: only the translation tie is checked. No axioms.",
+        technique="source-to-Coq translation + vm_compute obligations + proved formula soundness + in-Coq correspondence",
+        design="7/C15",
+    ),
     "C04": dict(
         text="Machine-checked Coq proofs: for every non-empty well-formed code string the label finder bound by an opcode table returns exactly CPython's dis.findlabels list (relative/absolute, x2 from 3.10, backward-jump names from 3.11, own inline caches from 3.12) - by simulation of both unpacking loops plus a fold lemma; Instruction.argval of every jump equals CPython's target for all offsets/operands; is_jump_target <-> offset in labels or exception targets. Jump classification, backward naming and cache sizes are vm_compute obligations over tables regenerated from /repo and the installed interpreters; the cache table and thresholds of _get_jump_cache_size come from the source AST. Model tied by in-Coq correspondence over all 39 tables and the corpus.",
         note="Trusted: Coq kernel; hand model coq/Model/Instr.v + correspondence; translators (opcodes, small); Spec/Dis.v validated on every run against dis.findlabels of the installed 2.7, 3.6-3.13 (2.7's findlabels ignores EXTENDED_ARG, compared on code without it). Hypothesis wf_strict stated in the theorem and shown on real code. That targets are instruction starts is a property of compiler output, not decided. No axioms.",
